@@ -6,7 +6,7 @@ import "io"
 // hex and eexec writers (alone and stacked as in the PFA format).
 func VP_C13_writer_fault() {
 	vpUnwind(3000)
-	under := &vpWriter{failAt: vpChoose("failAt", vpParam("FAILS", 4)), short: vpChoose("short", 2) == 1}
+	under := &vpWriter{failAt: vpChoose("failAt", vpParam("FAILS", 4)), short: vpChoose("short", 2) == 1, once: vpChoose("once", 2) == 1}
 	var top io.Writer
 	var closers []io.Closer
 	switch vpChoose("stack", 3) {
